@@ -38,7 +38,7 @@ fn ops() -> Vec<Op> {
 impl<'a> Visitor for Enumerate<'a> {
     fn visit<F: Flt, D: Subject<F>>(&mut self, d: Dims) {
         let l = D::layout(d);
-        let budget: usize = if self.mode == Mode::Quick { 60_000 } else { 20_000_000 };
+        let budget: usize = if self.mode == Mode::Quick { 60_000 } else { 3_000_000 };
         for op in ops() {
             let ar = op.arity();
             // per-slot number of values: polynomial degree of the result in that part + 1
